@@ -79,3 +79,8 @@ add("C15", "model_checking",
     "The real SimpleHashScheme.Block/PubKeys/VotePowers and SimpleSignatureScheme.Write*SigningContent run on pairs of symbolic headers / vote targets (byte fields 0-2 symbolic bytes incl. nil vs empty, integers < 1000, 0-2 validators, 0-2 commit-proof entries with 0-2 signatures): BLAKE2b is replaced by an injective recording hasher (the digest is the written byte stream), so 'equal hash' means 'equal serialised bytes'; the solver shows equal bytes imply equality of every field other than Hash, independence from the stored Hash and from map iteration order, and that prevote/precommit/proposal sign bytes are pairwise distinct across kind, height, round and hash.",
     "Assumes BLAKE2b collision resistance (modelled as injectivity). fmt's %x/%d/%s are modelled exactly for symbolic operands (validated against real fmt in native replay). Field sizes above 2 bytes and integers >= 1000 are outside. Observation (not claimed as violation): proposal sign bytes do not cover validator sets or the commit proof.",
     "symbolic execution of go/ssa + SMT; hash replaced by an injective function", "§5 C15")
+
+add("C11", "model_checking",
+    "A real Mirror whose view outputs are unbuffered (as tmengine wires them) with the harness playing the state machine (round entrance, view reader) and the gossip strategy: four scripted histories (growing votes, one nil-precommit round, two consecutive nil-precommit rounds, a minority-prevote jump) are delivered, and after every message each consumer either reads everything offered or stays stalled (all combinations); both resume at the end. Per consumer and (height, round): versions strictly increase, votes and proposals only grow; at quiescence gossip holds the mirror's latest voting view and the state machine the latest view of its round; the precommits that justified leaving a nil-committed round reached both consumers; a skipped round is announced by a jump-ahead.",
+    "Bounds: 3 validators, 2-3 messages per script, stall/read choices at message boundaries only (no preemption inside the kernel loop; deterministic cooperative schedule otherwise). Signature validity is an uninterpreted predicate with the script's signatures assumed authentic.",
+    "symbolic execution of go/ssa + SMT; consumer speeds as explored choices, real mirror+kernel threads", "§5 C11")
